@@ -121,7 +121,13 @@ type shParams struct {
 	// writes one record per disk; Disk says which one this is. Stamps carry the disk number in bits 56….
 	Twin string `json:"twin,omitempty"`
 	Disk int    `json:"disk"`
+	// Fresh: a "fresh-start" history (indices from shFreshBase): one or two rounds, no observation phase
+	// before the first burst, so the clients' first operations on the newly created disk start together.
+	Fresh bool `json:"fresh_start,omitempty"`
 }
+
+// shFreshBase is the first index of the fresh-start histories.
+const shFreshBase = 1 << 24
 
 type shOp struct {
 	K     byte // 'r' Read, 't' ReadTo, 'w' Write, 's' Size
@@ -211,11 +217,28 @@ func shGen(seed int64, idx int) (shParams, []shRound) {
 	if rng.Chance(12) {
 		p.Barrier = "spin"
 	}
+	if idx >= shFreshBase {
+		// many fresh disks, each used briefly: what matters is the first operation of each client
+		p.Fresh = true
+		p.Clients = 2 + rng.Intn(7)
+		// the size of the disk decides how long whatever a first access has to set up takes
+		p.Size = []uint64{1, 2, 3, 4, 8, 16, 64, 64, 256, 256, 1024, 4096}[rng.Intn(12)]
+		p.Hot = []uint64{rng.U64() % p.Size}
+		for k := rng.Intn(3); k > 0 && p.Size >= 4; k-- { // up to three addresses in use
+			if a := rng.U64() % p.Size; a != p.Hot[0] && a != p.Hot[len(p.Hot)-1] {
+				p.Hot = append(p.Hot, a)
+			}
+		}
+		p.Rounds = 1 + rng.Intn(2)
+		p.BurstMax = 1 + rng.Intn(2)
+		p.Twin = ""
+		p.Barrier = []string{"spin", "spin", "park"}[rng.Intn(3)]
+	}
 	rounds := make([]shRound, p.Rounds)
 	for ri := range rounds {
 		rd := shRound{Obs: make([][]shOp, p.Clients), Burst: make([][]shOp, p.Clients)}
 		for c := 0; c < p.Clients; c++ {
-			if c == ri%p.Clients || rng.Chance(p.ObservePct) {
+			if (c == ri%p.Clients || rng.Chance(p.ObservePct)) && !(p.Fresh && ri == 0) {
 				for _, a := range p.Hot {
 					k := byte('r')
 					if rng.Bool() {
@@ -231,7 +254,15 @@ func shGen(seed int64, idx int) (shParams, []shRound) {
 				if rng.Chance(8) {
 					o.A = rng.U64() % p.Size
 				}
-				switch x := rng.Intn(100); {
+				x := rng.Intn(100)
+				if p.Fresh {
+					// a first operation may be of any kind: half of them writes
+					x = []int{0, 85, 92, 99}[[]int{0, 0, 0, 0, 1, 1, 2, 2}[rng.Intn(8)]]
+					if rng.Chance(6) {
+						x = 99
+					}
+				}
+				switch {
 				case x < 82:
 					o.K = 'w'
 					o.Shape = prof.shapes[rng.Intn(len(prof.shapes))]
@@ -423,7 +454,7 @@ func c10ShapeClient(args []string) int {
 		start := time.Now()
 		// spinning barriers release the clients more tightly but burn the processors the
 		// clients need when there are many of them: most histories park instead
-		bar := &spinBarrier{n: int32(p.Clients), park: !(p.Barrier == "spin" && runtime.GOMAXPROCS(0) <= 4), ch: make(chan struct{})}
+		bar := &spinBarrier{n: int32(p.Clients), park: !(p.Barrier == "spin" && (p.Fresh || runtime.GOMAXPROCS(0) <= 4)), ch: make(chan struct{})}
 		var wg sync.WaitGroup
 		// do performs one operation on behalf of a client and records it. base is the
 		// client's last observation per address (nil = zero block).
@@ -523,10 +554,35 @@ func c10ShapeClient(args []string) int {
 		}
 		wg.Wait()
 		// quiescent point: every client has joined; read every block of every disk
+		// (for disks above 16 blocks: the addresses the history used, their neighbours, both ends)
+		final := map[uint64]bool{}
+		if p.Size > 16 {
+			mark := func(a uint64) {
+				for _, x := range []uint64{a - 1, a, a + 1} {
+					if x < p.Size {
+						final[x] = true
+					}
+				}
+			}
+			mark(0)
+			mark(p.Size - 1)
+			for _, rd := range rounds {
+				for _, ops := range rd.Burst {
+					for _, o := range ops {
+						if o.K != 's' {
+							mark(o.A)
+						}
+					}
+				}
+			}
+		}
 		for di := range disks {
 			base := make([][]byte, p.Size)
 			wbuf, rbuf := make([]byte, bs), make([]byte, bs)
 			for a := uint64(0); a < p.Size; a++ {
+				if p.Size > 16 && !final[a] {
+					continue
+				}
 				k := byte('r')
 				if a%2 == 1 {
 					k = 't'
